@@ -36,30 +36,58 @@ def _up_const(x, m):
     return x + z3.URem(z3.BitVecVal(m, 64) - z3.URem(x, z3.BitVecVal(m, 64)), z3.BitVecVal(m, 64))
 
 
-def up(x, a):
-    """smallest multiple of a that is >= x"""
-    if not _sym(x, a):
-        return (x + a - 1) // a * a
-    x = _bv(x)
-    if not z3.is_expr(a):
-        return _up_const(x, a)
+def up_def(x, a):
+    """DEFINITION (symbolic a): smallest multiple of a that is >= x, for a one of 2^0..2^MAXLOG, by cases through the
+    ordinary remainder by that constant"""
     r = x                      # (a outside the table: unspecified, the contracts require a power of two in range)
     for k in range(MAXLOG, -1, -1):
         r = z3.If(a == z3.BitVecVal(1 << k, 64), _up_const(x, 1 << k), r)
     return r
 
 
+def down_def(x, a):
+    r = x
+    for k in range(MAXLOG, -1, -1):
+        r = z3.If(a == z3.BitVecVal(1 << k, 64), x - z3.URem(x, z3.BitVecVal(1 << k, 64)), r)
+    return r
+
+
+def up(x, a):
+    """smallest multiple of a that is >= x.  For a symbolic power of two the contracts use the equal two's-complement
+    form (x + a - 1) & -a; that it equals the definition above is lemma `up-form`, discharged for each of the
+    powers 2^0..2^MAXLOG on every run (lemmas() below)"""
+    if not _sym(x, a):
+        return (x + a - 1) // a * a
+    x = _bv(x)
+    if not z3.is_expr(a):
+        return _up_const(x, a)
+    return (x + a - 1) & -a
+
+
 def down(x, a):
-    """largest multiple of a that is <= x"""
+    """largest multiple of a that is <= x (symbolic power of two: x & -a, lemma `down-form`)"""
     if not _sym(x, a):
         return x // a * a
     x = _bv(x)
     if not z3.is_expr(a):
         return x - z3.URem(x, z3.BitVecVal(a, 64))
-    r = x
-    for k in range(MAXLOG, -1, -1):
-        r = z3.If(a == z3.BitVecVal(1 << k, 64), x - z3.URem(x, z3.BitVecVal(1 << k, 64)), r)
-    return r
+    return x & -a
+
+
+def lemmas():
+    """for each power of two a = 2^k, k = 0..MAXLOG, and every 64-bit x:  up(x, a) and down(x, a) in the form the
+    contracts use equal the remainder definitions"""
+    from vf.smt import Ob
+    x = z3.BitVec('x', 64)
+    out = []
+    for k in range(MAXLOG + 1):
+        a = z3.BitVecVal(1 << k, 64)
+        av = z3.BitVec('a', 64)
+        out.append(Ob('specs/layout.py:lemma:up-form[a=2^%d]' % k, [av == a],
+                      z3.And(up(x, av) == up_def(x, av), up(x, av) == _up_const(x, 1 << k)), kind='lemma'))
+        out.append(Ob('specs/layout.py:lemma:down-form[a=2^%d]' % k, [av == a],
+                      z3.And(down(x, av) == down_def(x, av), down(x, av) == x - z3.URem(x, a)), kind='lemma'))
+    return out
 
 
 def is_pow2(a, maxlog=30):
